@@ -111,6 +111,7 @@ func runRef(w *work, c *jqrun.Compiled) {
 	g := c.Run(in, ins, 2*time.Second)
 	w.ev["gj"] = g.Out
 	w.ev["gj_side"] = g.Side
+	w.ev["gj_stderr"] = jqrun.Cps(g.Stderr)
 }
 
 // plain command line: `fq -nc --argjson __vin V '$__vin | PROG' in0.json in1.json ...`
@@ -143,7 +144,8 @@ func runSingle(w *work) {
 		bad = fmt.Sprintf("exit %d: %s", r.Exit, r.Stderr)
 	}
 	one["out"] = outs
-	one["stderr"] = r.Stderr
+	one["stderr"] = jqrun.Cps(r.Stderr)
+	one["stderr_text"] = r.Stderr
 	if bad != "" {
 		one["bad"] = bad
 	}
@@ -248,7 +250,11 @@ func replay(cases []tcase, singleEvery int) []event {
 				sel[k] = append(sel[k], j)
 			}
 		}
-		r := jqrun.Fq([]string{"fq", "-nc", "--argjson", "__vin", "[" + strings.Join(vin, ",") + "]", jqrun.BatchExprSel(ps, sel)}, nil, nil, 60*time.Second)
+		tmo := 30 * time.Second
+		if len(ps) == 1 {
+			tmo = 5 * time.Second
+		}
+		r := jqrun.Fq([]string{"fq", "-nc", "--argjson", "__vin", "[" + strings.Join(vin, ",") + "]", jqrun.BatchExprSel(ps, sel)}, nil, nil, tmo)
 		var got [][][]jqrun.Outcome
 		var err error
 		if !r.TimedOut && r.Exit == 0 {
